@@ -287,7 +287,7 @@ Lemma rw_class_back tr dtr inv dtr2 c c1 :
   exists c2, rw_class inv dtr2 c1 = OOk c2 /\ forget_dst c2 = forget_dst c /\ class_key c2 = class_key c.
 Proof.
   intros (Hfnd & Hfs & Hmnd & Hms) Hg Hk H. unfold rw_class in H.
-  destruct (c_names c) as [|[src|] [|[d|] [|? ?]]] eqn:En; try discriminate.
+  destruct (c_names c) as [|[src|] [|d [|? ?]]] eqn:En; try discriminate.
   destruct (add_children field_key key2_eqb (rw_field tr) (c_fields c) []) as [fs1| |] eqn:Ef; try discriminate.
   destruct (add_children meth_key key2_eqb (rw_meth tr) (c_methods c) []) as [ms1| |] eqn:Em; try discriminate.
   cbn [obind] in H. injection H as <-.
@@ -301,7 +301,7 @@ Proof.
   { eapply Forall2_flip_impl; [exact Hm2|]. intros f f1 Hin Hr. cbn beta in Hr.
     eapply rw_meth_back; [|exact Hr]. intros n Hn. apply (Hg (m_desc f)); [|exact Hn].
     unfold class_descs. apply in_or_app. right. apply in_map. exact Hin. }
-  exists (mkClass [Some src; Some (dtr2 (dtr d))] (c_doc c) (c_fields c) (c_methods c)).
+  exists (mkClass [Some src; option_map dtr2 (option_map dtr d)] (c_doc c) (c_fields c) (c_methods c)).
   unfold rw_class. cbn [c_names c_fields c_methods c_doc].
   rewrite (add_children_complete field_key key2_eqb (rw_field inv) fs1' (c_fields c) [] key2_eqb_eq Hfb Hfs Hfnd).
   rewrite (add_children_complete meth_key key2_eqb (rw_meth inv) ms1' (c_methods c) [] key2_eqb_eq Hmb Hms Hmnd).
@@ -409,7 +409,7 @@ Proof.
   cbn [obind] in Happ. injection Happ as <-. cbn [ms_classes].
   apply add_children_ok in E. destruct E as (cs1' & H2 & ->). cbn [app].
   eapply Forall2_mono; [|exact H2]. intros c c1 Hr. cbn beta in Hr. unfold rw_class in Hr.
-  destruct (c_names c) as [|[src|] [|[d|] [|? ?]]] eqn:En; try discriminate.
+  destruct (c_names c) as [|[src|] [|d [|? ?]]] eqn:En; try discriminate.
   destruct (add_children field_key key2_eqb _ (c_fields c) []) as [fs1| |] eqn:Ef; try discriminate.
   destruct (add_children meth_key key2_eqb _ (c_methods c) []) as [ms1| |] eqn:Emm; try discriminate.
   cbn [obind] in Hr. injection Hr as <-. cbn [c_fields c_methods c_doc].
